@@ -276,8 +276,11 @@ func (s *genSt) churn() {
 
 // Gen writes g.N histories.
 func Gen(g *common.Gen, p Profile) {
+	// g.R streams of consecutive seeds are shifts of one another (splitmix64 with an additive seed);
+	// fork once so that every seed gets an unrelated stream of per-history generators.
+	root := g.R.Fork()
 	for i := 0; i < g.N; i++ {
-		r := g.R.Fork()
+		r := root.Fork()
 		s := &genSt{g: g, r: r, p: p, local: map[int]bool{}}
 		admit, serve := b2i(!r.Chance(1, 6)), b2i(!r.Chance(1, 6))
 		g.Op("new %d %d %d %d %s", admit, serve, common.Pick(r, []int{0, 1, 2, 8, 8, 64}),
